@@ -18,7 +18,7 @@ N == Len(Recs)
 
 \* the mutation classes of the totality exploration (strings are drawn by the runner)
 MutationClasses == {"truncate", "unbalance", "numeral", "nest-paren", "nest-not", "nest-json", "non-ascii",
-                    "keyword-ident", "token-drop", "token-dup", "token-swap", "char-flip", "garbage", "json-entry", "whitespace"}
+                    "keyword-ident", "token-drop", "token-dup", "token-swap", "char-flip", "garbage", "json-entry", "whitespace", "case-map"}
 TokClasses == {"wf", "wf-redundant", "tok-drop", "tok-dup", "tok-swap", "tok-insert", "tok-random"}
 
 JudgeTotal(r) == IF ~ParseTotal(r.outcome) THEN "nontotal-parse"
